@@ -265,10 +265,16 @@ STATEMENTS = [
     ('SELECT count(*), sum(a), min(s), max(s) FROM #t', [None]),
     ('SELECT * FROM (SELECT s, count(*) AS n FROM #t GROUP BY s) WHERE n >= %s', [[1], [2]]),
     ('SELECT uid, b FROM #u ORDER BY b DESC, uid LIMIT 3', [None]),
+    ('SELECT * FROM #t WHERE a >= %s', [[0], [2], [5]]),
+    ('SELECT * FROM (SELECT * FROM #u) WHERE b > %s ORDER BY uid DESC', [[0], [3]]),
 ]
 TABLE_T = {'name': 't', 'cols': [('rid', 'int'), ('a', 'int'), ('s', 'str')],
            'rows': [(0, 1, 'a'), (1, 2, 'b'), (2, None, 'a'), (3, 3, None), (4, 2, 'ab'), (5, 7, 'b'), (6, 1, 'a')]}
 TABLE_U = {'name': 'u', 'cols': [('uid', 'int'), ('b', 'int')], 'rows': [(0, 1), (1, 3), (2, 7), (3, None), (4, 3)]}
+
+OTHER_TABS = [{'name': 't', 'cols': [('s', 'str'), ('rid', 'int'), ('a', 'int')],
+               'rows': [('b', 0, 7), (None, 1, 1), ('a', 2, 3), ('ab', 3, None), ('a', 4, 9), ('b', 5, 2)]},
+              {'name': 'u', 'cols': [('b', 'int'), ('uid', 'int')], 'rows': [(7, 0), (2, 1), (None, 2), (9, 3)]}]
 
 LEDGER_STATEMENTS = [
     ('SELECT date, account, balance WHERE account ~ %s', [['Checking'], ['Broker'], ['Food']]),
@@ -293,6 +299,8 @@ LEDGER_STATEMENTS[1] = ('SELECT account, balance, position, balance WHERE date >
                         [[datetime.date(2019, 1, 1)], [datetime.date(2019, 2, 1)], [datetime.date(2019, 3, 5)]])
 
 
+OTHER_LEDGER = ledgers.SAMPLE.replace('2019-', '2018-').replace('Assets:Bank:Checking', 'Assets:Bank:Giro')
+
 PRINTS = ['PRINT', 'PRINT FROM year = 2019 CLOSE ON 2019-02-01', "PRINT FROM type = 'transaction' AND flag = '!'", 'PRINT FROM CLEAR']
 
 
@@ -314,6 +322,7 @@ def history_cases(pool):
         st.tuples(st.just('fetch'), st.integers(0, 3), st.just(0)),
         st.tuples(st.just('compile_only'), st.integers(0, n - 1), st.integers(0, 2)),
         st.tuples(st.just('print'), st.integers(0, 3), st.just(0)),
+        st.tuples(st.just('other'), st.integers(0, n - 1), st.integers(0, 2)),
     )
     return st.lists(op, min_size=2, max_size=12)
 
@@ -331,9 +340,10 @@ def fresh_result(mk_conn, text, params, tag=''):
     return _FRESH[key]
 
 
-def run_history(sh, ops, pool, mk_conn, snapshot, tag):
+def run_history(sh, ops, pool, mk_conn, snapshot, tag, mk_other=None):
     fails = []
     conn = mk_conn()
+    other = mk_other() if mk_other else None
     before = snapshot(conn)
     parsed = {}
     cur = conn.cursor()
@@ -366,6 +376,20 @@ def run_history(sh, ops, pool, mk_conn, snapshot, tag):
             continue
         text, psets = pool[i]
         params = psets[j % len(psets)]
+        if kind == 'other':
+            # the parsed statement of this history is also executed on a second connection whose tables have the same
+            # names but other rows (and another column order): nothing of either execution may stick to the statement
+            if other is None:
+                continue
+            if i not in parsed:
+                parsed[i] = conn.parse(text)
+            got = harness.engine(other, parsed[i], params)
+            want = fresh_result(mk_other, text, params, tag + ':other')
+            if want[0] == 'ok' and (got[0] != 'ok' or got[2] != want[2] or [d.name for d in got[1]] != [d.name for d in want[1]]):
+                fails.append((f'{tag}:other-connection-differs-from-fresh', f'{text!r} {params!r} after {ops!r}\n got {got[1:]!r}\n fresh {want[2]!r}'))
+            nontrivial = nontrivial or i in reused
+            last_stmt = None
+            continue
         try:
             if kind == 'text':
                 cur = conn.execute(text, params)
@@ -415,7 +439,8 @@ def prop_history(sh, case):
     tabs = [TABLE_T, TABLE_U]
     fails, nontrivial = run_history(sh, [tuple(o) for o in case['ops']], STATEMENTS,
                                     lambda: harness.connect(tabs)[0],
-                                    lambda conn: [list(conn.tables[n].rows) for n in ('t', 'u')], 'history')
+                                    lambda conn: [list(conn.tables[n].rows) for n in ('t', 'u')], 'history',
+                                    lambda: harness.connect(OTHER_TABS)[0])
     sh.record(jsonio.case_hash(case), nontrivial, {'ops': [list(o) for o in case['ops']]} if nontrivial else None)
     return fails
 
@@ -424,7 +449,8 @@ def prop_ledger_history(sh, case):
     entries, errors, options = ledgers.load(ledgers.SAMPLE)
     fails, nontrivial = run_history(sh, [tuple(o) for o in case['ops']], LEDGER_STATEMENTS,
                                     lambda: ledgers.connect(ledgers.SAMPLE),
-                                    lambda conn: pickle.dumps(entries), 'ledger-history')
+                                    lambda conn: pickle.dumps(entries), 'ledger-history',
+                                    lambda: ledgers.connect(OTHER_LEDGER))
     sh.record(jsonio.case_hash(case), nontrivial or len(case['ops']) >= 4,
               {'ops': [list(o) for o in case['ops']]} if len(case['ops']) >= 4 else None)
     return fails
